@@ -300,6 +300,20 @@ def run(ck):
         if now != was:
             ck.report("condition-source-changed:" + fn, "`%s` (src/planner/rules/%s) is a side condition / applier the translator reads by name, and its definition changed: the statements no longer follow it" % (fn, base),
                       replay={"function": key, "was": was, "is": now}, found_input=False)
+    # constant analysis acts like a rewrite (`union_constant` replaces an e-class by its constant): the arms of
+    # `eval_constant` are read from the source; the fold model (Model/KernelFold.lean, C14/C16) and this check's
+    # witnesses cover constants, binary / unary operators, IS NULL and CAST — an arm for anything else (a reference
+    # to a column, an aggregate: both were defects, fixes b5b0fad / 72f907b) is outside what is shown sound
+    try:
+        ec = _c17.fn_text(os.path.join(vlib.REPO, "src/planner/rules/expr.rs"), "eval_constant")
+        ec_arms = sorted(set(re.findall(r"let &?([A-Z][A-Za-z0-9]*)\s*[\(\[]", ec)) | set(re.findall(r"\|\s*&?([A-Z][A-Za-z0-9]*)\s*\(", ec)))
+        extra_arms = [a for a in ec_arms if a not in ("Constant", "IsNull", "Cast", "Some")]
+        if extra_arms or "binary_op()" not in ec or "unary_op()" not in ec:
+            ck.report("condition-source-changed:eval_constant-arms", "constant analysis (`eval_constant`, src/planner/rules/expr.rs) has an arm for %s: folding through it is not covered by any theorem (a reference to a constant column is NULL on the padded rows of an outer join; an aggregate of a constant is NULL on empty input)" % extra_arms,
+                      replay={"function": "expr.rs:eval_constant", "arms": ec_arms, "text": ec}, found_input=False)
+        ck.coverage["eval_constant_arms"] = ec_arms
+    except (ValueError, OSError) as e:
+        ck.report("condition-source-changed:eval_constant-arms", "eval_constant cannot be read (%s)" % e, replay={"function": "expr.rs:eval_constant"}, found_input=False)
     # a rule nobody knows about (new in the source): neither translated-and-proved nor listed
     for r in other_rules:
         if r["name"] not in KNOWN_UNTRANSLATABLE:
